@@ -5,6 +5,7 @@ import Fpdec.Props.C09
 import Fpdec.Props.C11
 import Fpdec.Props.C12
 import Fpdec.Props.C15
+import Fpdec.Props.C16
 import Fpdec.Props.C17
 import Fpdec.Props.C20_Sites
 
@@ -75,30 +76,30 @@ theorem round_same_obs (p1 p2 : Profile) (tm : Mode) (d : Dec) (n : Int) (hd : D
    determined_checked _ hdet (C05.round_exp_shape tm d.coeff d.nfrac n).2.2 _ _
      (C05.checked_round_spec p1 tm d n hd hn) (C05.checked_round_spec p2 tm d n hd hn)⟩
 
-theorem mul_same_obs (hw : C02.WideMul) (p1 p2 : Profile) (tm : Mode) (x y : Dec) (hx : Dom x) (hy : Dom y)
+theorem mul_same_obs (p1 p2 : Profile) (tm : Mode) (x y : Dec) (hx : Dom x) (hy : Dom y)
     (hdet : Determined (Spec.mul tm x.coeff x.nfrac y.coeff y.nfrac)) :
     SameObs (outPair (mul p1 tm x y)) (outPair (mul p2 tm x y)) :=
-  determined _ hdet _ _ (C02.mul_spec hw p1 tm x y hx hy) (C02.mul_spec hw p2 tm x y hx hy)
+  determined _ hdet _ _ (C02.mul_spec C16.wide_mul p1 tm x y hx hy) (C02.mul_spec C16.wide_mul p2 tm x y hx hy)
 
-theorem div_same_obs (hw : C04.WideDiv) (p1 p2 : Profile) (tm : Mode) (x y : Dec) (hx : Dom x) (hy : Dom y)
+theorem div_same_obs (p1 p2 : Profile) (tm : Mode) (x y : Dec) (hx : Dom x) (hy : Dom y)
     (hdet : Determined (Spec.div tm x.coeff x.nfrac y.coeff y.nfrac)) :
     SameObs (outPair (div p1 tm x y)) (outPair (div p2 tm x y)) :=
-  determined _ hdet _ _ (C03.div_spec hw p1 tm x y hx hy) (C03.div_spec hw p2 tm x y hx hy)
+  determined _ hdet _ _ (C03.div_spec C16.wide_div p1 tm x y hx hy) (C03.div_spec C16.wide_div p2 tm x y hx hy)
 
-theorem div_rounded_same_obs (hw : C04.WideDiv) (p1 p2 : Profile) (tm : Mode) (x y : Dec) (n : Nat) (hx : Dom x) (hy : Dom y)
+theorem div_rounded_same_obs (p1 p2 : Profile) (tm : Mode) (x y : Dec) (n : Nat) (hx : Dom x) (hy : Dom y)
     (hdet : Determined (Spec.divRounded tm x.coeff x.nfrac y.coeff y.nfrac n)) :
     SameObs (outPair (divRounded p1 tm x y n)) (outPair (divRounded p2 tm x y n)) :=
-  determined _ hdet _ _ (C04.div_rounded_spec hw p1 tm x y n hx hy) (C04.div_rounded_spec hw p2 tm x y n hx hy)
+  determined _ hdet _ _ (C04.div_rounded_spec C16.wide_div p1 tm x y n hx hy) (C04.div_rounded_spec C16.wide_div p2 tm x y n hx hy)
 
-theorem mul_rounded_same_obs (hw : C02.WideMul) (p1 p2 : Profile) (tm : Mode) (x y : Dec) (n : Nat) (hx : Dom x) (hy : Dom y)
+theorem mul_rounded_same_obs (p1 p2 : Profile) (tm : Mode) (x y : Dec) (n : Nat) (hx : Dom x) (hy : Dom y)
     (hdet : Determined (Spec.mulRounded tm x.coeff x.nfrac y.coeff y.nfrac n)) :
     SameObs (outPair (mulRounded p1 tm x y n)) (outPair (mulRounded p2 tm x y n)) :=
-  determined _ hdet _ _ (C04.mul_rounded_spec hw p1 tm x y n hx hy) (C04.mul_rounded_spec hw p2 tm x y n hx hy)
+  determined _ hdet _ _ (C04.mul_rounded_spec C16.wide_mul p1 tm x y n hx hy) (C04.mul_rounded_spec C16.wide_mul p2 tm x y n hx hy)
 
-theorem quantize_same_obs (hwm : C02.WideMul) (hwd : C04.WideDiv) (p1 p2 : Profile) (tm : Mode) (x q : Dec) (hx : Dom x) (hq : Dom q)
+theorem quantize_same_obs (p1 p2 : Profile) (tm : Mode) (x q : Dec) (hx : Dom x) (hq : Dom q)
     (hdet : Determined (Spec.quantize tm false x.coeff x.nfrac q.coeff q.nfrac)) :
     SameObs (outPair (quantize p1 tm x q)) (outPair (quantize p2 tm x q)) :=
-  determined _ hdet _ _ (C04.quantize_spec hwm hwd p1 tm x q hx hq) (C04.quantize_spec hwm hwd p2 tm x q hx hq)
+  determined _ hdet _ _ (C04.quantize_spec C16.wide_mul C16.wide_div p1 tm x q hx hq) (C04.quantize_spec C16.wide_mul C16.wide_div p2 tm x q hx hq)
 
 /-- `from_str`: the same accept/reject verdict and the same value in every profile -/
 theorem from_str_same_obs (p1 p2 : Profile) (s : List Nat) (hb : ∀ c ∈ s, c < 256) (hlen : s.length < 2 ^ 56) :
